@@ -166,6 +166,9 @@ def _read_midi_length(fileobj):
 
         durations.append(duration)
 
+    if not durations:
+        raise SMFError("No tracks found")
+
     # return the longest one
     return max(durations)
 
